@@ -1,6 +1,7 @@
 (* Props_C07.v — property C07 (pool = cloud; failed calls leave no orphan) against the pool LTS. *)
 From Coq Require Import ZArith List Bool.
 From TV Require Import PoolModel PoolSets PoolInv PoolThm PoolBal.
+From TV Require MgrModel MgrProofs.
 Import ListNotations.
 Local Open Scope Z_scope.
 
@@ -63,3 +64,22 @@ Example c07_ex :
   | Some s => f_cl (s_4 s) = [51; 50] /\ keys (f_set (s_4 s)) = [50; 51] /\ s_inh s = 600600
   | None => False end.
 Proof. vm_compute. repeat split; intros H; discriminate. Qed.
+
+(* ---- the several requests of one ADD (Manager.Allocate + the daemon's roll-back) ------------------------------ *)
+(* for every assignment of requests to backends and every sequence of answers (resource, error, closed channel, none)
+   and cancellations, each taken in before the next: Allocate returns exactly the resources the backends gave to the
+   pod, whether it returns an error or not *)
+Theorem c07_allocate_returns_what_was_handed_out : forall acc evs,
+  MgrModel.handed (MgrModel.run acc evs) = MgrModel.got (MgrModel.run acc evs).
+Proof. exact MgrProofs.returned_is_handed. Qed.
+Print Assumptions c07_allocate_returns_what_was_handed_out.
+(* hence a failed ADD, rolled back with what Allocate returned, leaves no resource marked as the pod's *)
+Theorem c07_failed_add_leaves_nothing : forall acc evs,
+  MgrModel.failed (MgrModel.run acc evs) = true -> MgrModel.owned_after (MgrModel.run acc evs) = [].
+Proof. exact MgrProofs.failed_add_leaves_nothing. Qed.
+Print Assumptions c07_failed_add_leaves_nothing.
+(* non-vacuity: an ADD of two requests, the first answered, the second failing: one resource returned with the error *)
+Example c07_ex_partial :
+  let s := MgrModel.run [1; 2] [MgrModel.EAns 1 0; MgrModel.EAns 2 1] in
+  MgrModel.failed s = true /\ MgrModel.got s = [101] /\ MgrModel.owned_after s = [].
+Proof. vm_compute. repeat split. Qed.
